@@ -1,4 +1,5 @@
 import BlochVerif.Obj.Proofs
+import BlochVerif.Life.Proofs
 /-!
 # C08 — object model: construction order, dispatch, overloads, statics, destruction
 
@@ -206,5 +207,57 @@ example : dtorOrder exH 2 = [2, 0] := by decide
 example : pick (gCands 3) [.cls 2] = .chosen 4 ∧ pick (gCands 3) [.cls 1] = .chosen 3 := by decide
 example : pick [[.cls 0], [.cls 0]] [.cls 1] = .ambiguous := by decide
 example : pick [[.long], [.float]] [.int] = .chosen 0 := by decide
+
+/-! ### lifetime: the destructor runs when, and only when, the last reference goes
+
+`Life.Model` is the evaluator's shared-pointer discipline over arbitrary object graphs (fields `a`, `b`, any
+aliasing, cycles included).  For every program of the heap language and every state it reaches: -/
+open BlochVerif.Life in
+/-- the stored count of every object whose destructor has not run is exactly the number of slots and fields of
+live objects that reference it, and it is positive -/
+theorem reference_count_is_exact (ops : List Gc.Op) (h : ∀ op ∈ ops, Life.Op.wf op) (x : Nat) (o : LObj)
+    (hx : (runOps ops).heap[x]? = some o) (hd : o.dead = false) :
+    o.rc = refs (runOps ops) x ∧ 1 ≤ o.rc := by
+  obtain ⟨hi, hp⟩ := runOps_inv ops h
+  have := hi.live x o hx hd
+  exact ⟨by omega, hp x o hx hd⟩
+
+open BlochVerif.Life in
+/-- an object's destructor has run exactly when nothing references it any more: never while a variable or a
+field of a live object still points to it, and always as soon as none does -/
+theorem destructor_has_run_iff_unreferenced (ops : List Gc.Op) (h : ∀ op ∈ ops, Life.Op.wf op) (x : Nat) (o : LObj)
+    (hx : (runOps ops).heap[x]? = some o) :
+    o.dead = true ↔ refs (runOps ops) x = 0 := by
+  obtain ⟨hi, hp⟩ := runOps_inv ops h
+  constructor
+  · intro hd; exact (hi.deadObj x o hx hd).2.2.1
+  · intro hr
+    cases hd : o.dead with
+    | true => rfl
+    | false =>
+      have h1 := hi.live x o hx hd
+      have h2 := hp x o hx hd
+      omega
+
+open BlochVerif.Life in
+/-- a destroyed object holds nothing: its fields were released with it -/
+theorem destroyed_object_released_its_fields (ops : List Gc.Op) (h : ∀ op ∈ ops, Life.Op.wf op) (x : Nat) (o : LObj)
+    (hx : (runOps ops).heap[x]? = some o) (hd : o.dead = true) : o.a = none ∧ o.b = none := by
+  obtain ⟨hi, _⟩ := runOps_inv ops h
+  have := hi.deadObj x o hx hd
+  exact ⟨this.1, this.2.1⟩
+
+/-- releasing a reference prints one destructor line for each object that dies of it, and nothing else; nothing
+comes back to life (so no destructor can run twice) -/
+theorem one_destructor_line_per_death (fuel : Nat) (s : Life.St) (v : Option Nat) :
+    (Life.release fuel s v).out.length + Life.liveCount (Life.release fuel s v) =
+      s.out.length + Life.liveCount s := Life.release_lines fuel s v
+
+/-- non-vacuity: a parent holding a child; dropping the parent destroys both, parent first -/
+def exOps : List Gc.Op := [.new 0 1, .new 1 2, .seta 0 1, .null 1, .show 0, .null 0]
+example : ∀ op ∈ exOps, Life.Op.wf op := by
+  intro op h; simp [exOps] at h; rcases h with h | h | h | h | h | h <;> subst h <;> simp [Life.Op.wf]
+example : ((Life.runOps exOps).heap.map (·.dead)) = [true, true] := by decide
+example : ((Life.runOps (exOps.take 5)).heap.map (fun o => (o.rc, o.dead))) = [(1, false), (1, false)] := by decide
 
 end BlochVerif.Props.C08
